@@ -251,6 +251,13 @@ def run_frozen(spec, rec, Integration, PhiManip, Numerics, tap):
         rng = rng_for(spec["seed"], "C04fr", nd, spec["b"], ci)
         L = int(rng.integers({2: 6, 3: 6, 4: 5, 5: 5}[nd], {2: 16, 3: 10, 4: 7, 5: 6}[nd] + 1))
         xx = gen.make_grid(rng, L, kind=str(rng.choice(["default", "uniform", "quadratic", "random"])))
+        crowded = nd == 2 and ci % 6 == 5
+        if crowded:
+            # a grid with interior points within 1e-5 of the boundaries (log-spaced or heavily crowded grids, default grids beyond
+            # ~560 points): only the lines AT 0 and 1 are absorbing
+            dl = float(10 ** rng.uniform(-7, -5.3))
+            xx = np.concatenate(([0.0, dl], np.linspace(0.03, 0.97, max(L - 4, 3)), [1.0 - dl, 1.0]))
+            L = len(xx)
         phi0 = asym_density(rng, (L,) * nd)
         frozen = list(patterns[(ci + spec["b"] * 7) % len(patterns)])
         nomut = [bool(rng.random() < 0.3) for _ in range(nd)] if nd == 2 else [False] * nd
